@@ -39,7 +39,7 @@ func verifMarkExprs() []string {
 		"l[*]", "l[*].x", "o[*].x", "o.*.x", "[a, b][*]", "{x = a}[*].x",
 		"!a", "!(a && b)", "(a || b) && c", "a ? (b || c) : (b && c)",
 		"[for v in l : v]", "{for k, v in o : k => v}", "[for v in l : v if a]",
-		"l[0]", "o.x", "o[\"x\"]", "u.x", "u[\"x\"]", "ul[0]", "\"${a}\"", "\"x${a}y${b}\"", "%{ if a }yes%{ else }no%{ endif }",
+		"l[0]", "o.x", "o[\"x\"]", "u.x", "u[\"x\"]", "ul[0]", "\"p${us}\"", "\"${us}${a}\"", "us == \"k\"", "\"${a}\"", "\"x${a}y${b}\"", "%{ if a }yes%{ else }no%{ endif }",
 	)
 	return out
 }
@@ -58,6 +58,7 @@ func TestVerifReplayMarks(t *testing.T) {
 		"s": cty.NullVal(cty.String),
 		"u": cty.UnknownVal(cty.Object(map[string]cty.Type{"x": cty.Number})),
 		"ul": cty.UnknownVal(cty.List(cty.Number)),
+		"us": cty.UnknownVal(cty.String),
 	}
 	alts := map[string]cty.Value{
 		"a": cty.False, "b": cty.True, "c": cty.False,
@@ -67,6 +68,7 @@ func TestVerifReplayMarks(t *testing.T) {
 		"s": cty.StringVal("x"),
 		"u": cty.ObjectVal(map[string]cty.Value{"x": cty.NumberIntVal(1)}),
 		"ul": cty.ListVal([]cty.Value{cty.NumberIntVal(1)}),
+		"us": cty.StringVal("k"),
 	}
 	n, fails := 0, 0
 	for _, src := range verifMarkExprs() {
@@ -118,5 +120,5 @@ func TestVerifReplayMarks(t *testing.T) {
 			}
 		}
 	}
-	fmt.Printf("STANDIN inputs=%d bound=\"%d expressions (binary operators, conditionals, splats, for, index, templates over 3 boolean, 2 collection, 2 nullable and 2 unknown variables), each variable marked in turn (top level and nested), two contents each\"\n", n, len(verifMarkExprs()))
+	fmt.Printf("STANDIN inputs=%d bound=\"%d expressions (binary operators, conditionals, splats, for, index, templates over 3 boolean, 2 collection, 2 nullable and 3 unknown variables), each variable marked in turn (top level and nested), two contents each\"\n", n, len(verifMarkExprs()))
 }
